@@ -19,7 +19,7 @@ func init() { checks["C18"] = c18 }
 func c18(args []string) {
 	c := chk.New("C18", "exploration", args)
 	c.Build(false)
-	c.Rule("[path shapes] sub-streams whose members mix relative, parent-relative and absolute paths (command and Go-function consumers): all members, arrival order, each readable from the task's working directory, each an Upstream key; src(n) -> 1 or 2 upstream processes (random task durations) -> recorder -> StreamToSubStream -> task with {i:x|join:SEP}: sub-stream lengths {0,1,2,B,B+1,3B} for SCIPIPE_BUFSIZE B in {1,3} (thorough also 128), separators {' ', ',', ':', ' -I ', '.and.', '..'} (and, printed by printf, separators containing a newline; the same joined port used three times in one command with different modifiers; a Go function writing through OutIP().Write() in a task with a joined in-port; two sub-streams reaching one joined in-port with default output names; the same file arriving twice on one sub-stream; a sub-stream fed by a hand-written component instead of StreamToSubStream; members that carry tags of their own), maxConcurrentTasks in {1,4}; without modifiers the task command is vcmd, which opens every path it was given from its working directory; with modifiers (%.txt, s/x/y/, basename) the command is an echo and only the strings are judged; oracle: exactly one start event of the joining process, the member paths in its argv == the sequence the recorder in front of the sub-stream saw (arrival order), all readable, the recorded command contains them joined by exactly SEP with modifiers applied to each member, audit Upstream keys == member paths and each names the upstream task; plus close storms: 2-8 one-file sources fan into a StreamToSubStream, built and run 1500-3000 times inside one child process (hooks passive in most of them) - exactly one sub-stream must come out per run. distinct_nontrivial = distinct (length, B, separator, modifiers, fan-in, config) cases")
+	c.Rule("[two members per producing task: both out-ports of the upstream process wired into one sub-stream] [path shapes] sub-streams whose members mix relative, parent-relative and absolute paths (command and Go-function consumers): all members, arrival order, each readable from the task's working directory, each an Upstream key; src(n) -> 1 or 2 upstream processes (random task durations) -> recorder -> StreamToSubStream -> task with {i:x|join:SEP}: sub-stream lengths {0,1,2,B,B+1,3B} for SCIPIPE_BUFSIZE B in {1,3} (thorough also 128), separators {' ', ',', ':', ' -I ', '.and.', '..'} (and, printed by printf, separators containing a newline; the same joined port used three times in one command with different modifiers; a Go function writing through OutIP().Write() in a task with a joined in-port; two sub-streams reaching one joined in-port with default output names; the same file arriving twice on one sub-stream; a sub-stream fed by a hand-written component instead of StreamToSubStream; members that carry tags of their own), maxConcurrentTasks in {1,4}; without modifiers the task command is vcmd, which opens every path it was given from its working directory; with modifiers (%.txt, s/x/y/, basename) the command is an echo and only the strings are judged; oracle: exactly one start event of the joining process, the member paths in its argv == the sequence the recorder in front of the sub-stream saw (arrival order), all readable, the recorded command contains them joined by exactly SEP with modifiers applied to each member, audit Upstream keys == member paths and each names the upstream task; plus close storms: 2-8 one-file sources fan into a StreamToSubStream, built and run 1500-3000 times inside one child process (hooks passive in most of them) - exactly one sub-stream must come out per run. distinct_nontrivial = distinct (length, B, separator, modifiers, fan-in, config) cases")
 	c.Assume("with two upstream processes the arrival order is whatever the recorder saw; it is not predicted")
 	rng := c.Rand("c18")
 	type job struct {
@@ -351,7 +351,7 @@ func c18corners(c *chk.Ctx) {
 	}
 	var jobs []*job
 	for _, n := range []int{1, 3, 5} {
-		for _, kind := range []string{"newline", "newline-space", "twice", "gofunc", "two-substreams", "duplicate-members", "manual-substream", "tagged-members"} {
+		for _, kind := range []string{"newline", "newline-space", "twice", "gofunc", "two-substreams", "duplicate-members", "manual-substream", "tagged-members", "two-ports-one-task"} {
 			jobs = append(jobs, &job{n, kind, []int{1, 3}[n%2]})
 		}
 	}
@@ -385,6 +385,10 @@ func c18corners(c *chk.Ctx) {
 			// every member carries a tag of its own (MapToTags in front of the sub-stream)
 			sep = ","
 			jn.Cmd = "echo {i:in|join:,} > {o:out}"
+		case "two-ports-one-task":
+			// every upstream task has two out-ports and both are wired into the sub-stream: two members per producing task
+			sep = ","
+			jn.Cmd = "echo {i:in|join:,} > {o:out}"
 		case "manual-substream":
 			// the sub-stream is built by a hand-written component that feeds the carrier IP's SubStream port itself
 			sep = " "
@@ -407,6 +411,12 @@ func c18corners(c *chk.Ctx) {
 		s.Conns = append(s.Conns, &spec.Conn{From: "src.out", To: "U.in"}, &spec.Conn{From: "U.out", To: "REC.in"}, &spec.Conn{From: "REC.out", To: "SS.in"}, &spec.Conn{From: "SS.substream", To: "JN.in"})
 		if j.kind == "manual-substream" {
 			s.Proc("SS").Kind = spec.KManualSub
+		}
+		if j.kind == "two-ports-one-task" {
+			u := s.Proc("U")
+			u.Cmd = spec.BuildCmd("U", []spec.PortDecl{{Name: "in"}}, []spec.PortDecl{{Name: "out"}, {Name: "res"}}, nil, nil, nil)
+			u.Outs = append(u.Outs, &spec.Out{Port: "res", Pattern: "ud/{i:in|basename}.U.res"})
+			s.Conns = append(s.Conns, &spec.Conn{From: "U.res", To: "REC.in"})
 		}
 		if j.kind == "tagged-members" {
 			s.Procs = append(s.Procs, &spec.Proc{Name: "T", Kind: spec.KMapToTags, Tags: []*spec.TagRule{{Key: "sample", Rule: "idx"}}})
@@ -499,6 +509,9 @@ func c18corners(c *chk.Ctx) {
 		nmembers := j.n
 		if j.kind == "duplicate-members" {
 			nmembers = j.n + 2
+		}
+		if j.kind == "two-ports-one-task" {
+			nmembers = 2 * j.n
 		}
 		if j.kind == "twice" {
 			want = "J:" + strings.Join(plain, ",") + ":J K:" + strings.Join(subst, ",") + ":K L:" + strings.Join(base, ",") + ":L\n"
